@@ -4,12 +4,14 @@ package main
 
 import (
 	"fmt"
+	"time"
 	"net"
 
 	"verif/harness/hv"
 
 	"github.com/bfenetworks/bfe/bfe_balance/backend"
 	"github.com/bfenetworks/bfe/bfe_balance/bal_gslb"
+	"github.com/bfenetworks/bfe/bfe_balance/bal_slb"
 	"github.com/bfenetworks/bfe/bfe_basic"
 	"github.com/bfenetworks/bfe/bfe_config/bfe_cluster_conf/cluster_conf"
 	"github.com/bfenetworks/bfe/bfe_config/bfe_cluster_conf/cluster_table_conf"
@@ -38,8 +40,79 @@ func errCode(err error) int {
 	return 99
 }
 
+func mkConf9(v hv.Val) cluster_table_conf.SubClusterBackend {
+	var conf cluster_table_conf.SubClusterBackend
+	for _, e := range hv.AsList(v) {
+		p := hv.AsList(e)
+		id, w := int(hv.AsInt(p[0])), int(hv.AsInt(p[1]))
+		name := fmt.Sprintf("b%d", id)
+		addr := "10.0.0.1"
+		port := 1000 + id
+		conf = append(conf, &cluster_table_conf.BackendConf{Name: &name, Addr: &addr, Port: &port, Weight: &w})
+	}
+	return conf
+}
+
+// kind 9: one BalanceRR with slow start
+func impl9(top hv.L) hv.Val {
+	algor := bal_slb.WrrSmooth
+	if hv.AsInt(top[1]) != 0 {
+		algor = bal_slb.WlcSmooth
+	}
+	brr := bal_slb.NewBalanceRR("sub")
+	brr.Init(mkConf9(top[2]))
+	find := func(id int) *backend.BfeBackend {
+		for _, b := range bal_slb.VerifC03Backends(brr) {
+			if b.Port-1000 == id {
+				return b
+			}
+		}
+		return nil
+	}
+	out := hv.L{}
+	for _, o := range hv.AsList(top[3]) {
+		op := hv.AsList(o)
+		switch hv.AsInt(op[0]) {
+		case 0:
+			k := int(hv.AsInt(op[1]))
+			ps := make(hv.L, 0, k)
+			for j := 0; j < k; j++ {
+				b, err := brr.Balance(algor, nil)
+				if err != nil || b == nil {
+					ps = append(ps, hv.I(-1))
+				} else {
+					ps = append(ps, hv.I(b.Port-1000))
+				}
+			}
+			out = append(out, ps)
+			continue
+		case 1:
+			brr.Update(mkConf9(op[1]))
+		case 2:
+			if b := find(int(hv.AsInt(op[1]))); b != nil {
+				b.SetAvail(hv.AsBool(op[2]))
+			}
+		case 3:
+			brr.SetSlowStart(int(hv.AsInt(op[1])))
+		case 4:
+			bal_slb.VerifC03SetElapsed(brr, 1000+int(hv.AsInt(op[1])), time.Duration(hv.AsInt(op[2]))*time.Millisecond)
+		case 5:
+			if b := find(int(hv.AsInt(op[1]))); b != nil {
+				b.SetRestart(true)
+			}
+		default:
+			panic("bad op")
+		}
+		out = append(out, hv.L{})
+	}
+	return out
+}
+
 func impl(in hv.Val) hv.Val {
 	top := hv.AsList(in)
+	if len(top) == 4 {
+		return impl9(top)
+	}
 	pr := hv.AsList(top[0])
 	modeI, rmax, cross := int(hv.AsInt(pr[0])), int(hv.AsInt(pr[1])), int(hv.AsInt(pr[2]))
 	gc := gslb_conf.GslbClusterConf{}
@@ -126,7 +199,125 @@ type gsub struct {
 	ids  []int
 }
 
+type ent9 struct{ id, w int }
+
+func conf9(c []ent9) hv.Val {
+	l := hv.L{}
+	for _, e := range c {
+		l = append(l, hv.L{hv.I(e.id), hv.I(e.w)})
+	}
+	return l
+}
+
+// elapsed (ms) at ramp position num/den of slow-start time T (s), kept clear of a truncation boundary (2 s jitter)
+func rampAt(T, final, num, den int) int {
+	e := T * 1000 * num / den
+	if final > 0 {
+		for (final*e)%(1000*T)+final*2000 >= 1000*T && (final*e)/(1000*T) < final {
+			e += 500
+		}
+	}
+	return e
+}
+
+// kind 9: slow start enabled; a backend (often configured with weight <= 0) is added by Update or restarted by the
+// health check while the others are frequently down, so it is the only candidate in the very first call
+func gen9(r *hv.Rng) (string, hv.Val) {
+	wlc := r.Intn(2)
+	n := r.Range(1, 3)
+	cur := make([]ent9, n)
+	for j := range cur {
+		cur[j] = ent9{j, r.Range(1, 3)}
+		if r.Chance(1, 5) {
+			cur[j].w = -r.Intn(2)
+		}
+	}
+	init := conf9(cur)
+	T := []int{3600, 7200, 86400}[r.Intn(3)]
+	ops := hv.L{}
+	pk := func(k int) {
+		if k > 0 {
+			ops = append(ops, hv.L{hv.I(0), hv.I(k)})
+		}
+	}
+	if r.Chance(1, 3) {
+		pk(r.Range(1, 3))
+	}
+	late := r.Chance(1, 4) // restart flag raised while slow start is off; SetSlowStart only later
+	if !late {
+		ops = append(ops, hv.L{hv.I(3), hv.I(T)})
+	}
+	class := "ss"
+	othersDown := r.Chance(2, 3)
+	var tid, tw int
+	if r.Bool() {
+		tid, tw = n, r.Range(1, 4)
+		if r.Bool() {
+			tw = -r.Intn(2)
+			class = "ss-w0"
+		}
+		if othersDown {
+			for _, e := range cur {
+				ops = append(ops, hv.L{hv.I(2), hv.I(e.id), hv.I(0)})
+			}
+		}
+		next := append(append([]ent9(nil), cur...), ent9{tid, tw})
+		ops = append(ops, hv.L{hv.I(1), conf9(next)})
+		cur = next
+	} else {
+		k := r.Intn(n)
+		tid, tw = cur[k].id, cur[k].w
+		ops = append(ops, hv.L{hv.I(2), hv.I(tid), hv.I(0)})
+		pk(r.Range(0, 2))
+		if r.Chance(1, 3) {
+			next := append([]ent9(nil), cur...)
+			next[k].w = 0
+			tw = 0
+			ops = append(ops, hv.L{hv.I(1), conf9(next)})
+			cur = next
+			class = "ss-w0"
+		}
+		if othersDown {
+			for _, e := range cur {
+				if e.id != tid {
+					ops = append(ops, hv.L{hv.I(2), hv.I(e.id), hv.I(0)})
+				}
+			}
+		}
+		ops = append(ops, hv.L{hv.I(5), hv.I(tid)}, hv.L{hv.I(2), hv.I(tid), hv.I(1)})
+	}
+	pk(r.Range(1, 3)) // first call(s) after the restart flag was set
+	if late {
+		if r.Chance(3, 4) {
+			ops = append(ops, hv.L{hv.I(3), hv.I(T)})
+		}
+		pk(r.Range(1, 3))
+		class += "-late"
+	}
+	for _, f := range [][2]int{{1, 3}, {1, 1}, {3, 2}} {
+		if r.Chance(2, 3) {
+			ops = append(ops, hv.L{hv.I(4), hv.I(tid), hv.I(rampAt(T, tw*100, f[0], f[1]))})
+			pk(r.Range(1, 4))
+		}
+	}
+	if othersDown && r.Bool() {
+		for _, e := range cur {
+			if e.id != tid {
+				ops = append(ops, hv.L{hv.I(2), hv.I(e.id), hv.I(1)})
+			}
+		}
+		pk(r.Range(1, 6))
+	}
+	if wlc == 1 {
+		class += "-wlc"
+	}
+	return class, hv.L{hv.I(9), hv.I(wlc), init, ops}
+}
+
 func gen(r *hv.Rng, i int, tier string) (string, hv.Val) {
+	if r.Chance(1, 5) {
+		return gen9(r)
+	}
 	mode := r.Intn(3)
 	rmax := r.Range(0, 3)
 	cross := r.Range(0, 2)
